@@ -43,4 +43,16 @@ d = open(dp).read()
 if "<!-- STATUS:BEGIN -->" in d:
     d = re.sub(r"<!-- STATUS:BEGIN -->.*<!-- STATUS:END -->", "<!-- STATUS:BEGIN -->\n" + txt.replace("\\", "\\\\") + "<!-- STATUS:END -->", d, flags=re.S)
     open(dp, "w").write(d)
+# appendix: per-slice notes verbatim (headings demoted)
+d = open(dp).read()
+if "<!-- NOTES:BEGIN -->" in d:
+    parts = []
+    for np_ in sorted(glob.glob(os.path.join(ROOT, "docs", "notes", "C*.md"))):
+        pid = os.path.basename(np_)[:-3]
+        body = open(np_).read().strip()
+        body = re.sub(r"^(#+) ", lambda m: "#" * (len(m.group(1)) + 2) + " ", body, flags=re.M)
+        parts.append(f"### A.{pid[1:]} {pid} — slice notes (docs/notes/{pid}.md)\n\n{body}\n")
+    i, j = d.index("<!-- NOTES:BEGIN -->"), d.index("<!-- NOTES:END -->")
+    d = d[:i] + "<!-- NOTES:BEGIN -->\n" + "\n".join(parts) + d[j:]
+    open(dp, "w").write(d)
 print("docs/STATUS.md written")
